@@ -9,7 +9,7 @@ sys.path.insert(0, "/verif/harness/py")
 import ber  # noqa: E402
 
 FAULTS = ["deliver", "drop", "duplicate", "delay", "reorder", "reqid", "cred", "version", "msgid", "user", "engine",
-          "truncate", "foreign", "report"]
+          "truncate", "foreign", "report", "echo"]
 
 
 class Dg:
@@ -115,6 +115,14 @@ def expected(view, cur, queue):
 def other_version(rng, peer, req, value):
     """a well-formed message of another SNMP version"""
     vbs = [ber.varbind((1, 3, 6, 1), ber.INT(value))]
+    if peer.kind != "v3" and rng.random() < 0.4:
+        # version numbers that agree with the session's only in their low octet(s)
+        mine = 0 if peer.kind == "v1" else 1
+        ver = mine + rng.choice([256, 65536, 2 ** 24, -256, 2 ** 31 - 256 + 0 * mine])
+        names = [tuple(v[0]) for v in req["varbinds"]] or [(1, 3, 6, 1)]
+        data = ber.SEQ(ber.INT(ver), ber.OCT(peer.community.encode()),
+                       ber.pdu(2, req["request_id"], 0, 0, [ber.varbind(n, ber.INT(value)) for n in names]))
+        return Dg(data, "garbage", tag=f"version{ver}")
     if peer.kind == "v3":
         data = ber.SEQ(ber.INT(rng.choice([0, 1])), ber.OCT(b"public"), ber.pdu(2, req["request_id"], 0, 0, vbs))
     elif rng.random() < 0.5:
@@ -217,6 +225,29 @@ def run(chk, model_ok=True):
                     elif kind == "user":
                         over["user"] = near_bytes(rng, view.user)
                     new.append(build_reply(peer, req, op, value + 800, view, **over))
+                elif f == "echo":
+                    # a request-type PDU (an echo, a misdirected request of somebody else) with another request id:
+                    # well-formed, not an answer to this request -> skipped
+                    rid = near_ints(rng, req["request_id"], prev[-1]["request_id"] if prev else None)
+                    names = [tuple(v[0]) for v in req["varbinds"]] or [(1, 3, 6, 1)]
+                    tagno = rng.choice([0, 1]) if peer.kind == "v1" else rng.choice([0, 1, 5])
+                    body = ber.pdu(tagno, rid, 0, 5 if tagno == 5 else 0, [ber.varbind(n) for n in names])
+                    if peer.kind == "v3":
+                        st_ = peer.state
+                        sc = ber.scoped_pdu(view.agent_engine, b"", body)
+                        if st_.priv_alg:
+                            ct, salt = st_.encrypt(sc, st_.boots, st_.time)
+                            data = ber.msg_v3(req["msg_id"], 3, view.agent_engine, st_.boots, st_.time, st_.user, bytes(12), salt, ber.OCT(ct))
+                        else:
+                            data = ber.msg_v3(req["msg_id"], 1 if st_.auth_alg else 0, view.agent_engine, st_.boots, st_.time, st_.user,
+                                              bytes(12) if st_.auth_alg else b"", b"", sc)
+                        flds = {"request_id": rid, "report": False, "user": st_.user, "engine_id": view.agent_engine,
+                                "msg_id": req["msg_id"], "version": 3}
+                    else:
+                        data = ber.SEQ(ber.INT(0 if peer.kind == "v1" else 1), ber.OCT(peer.community.encode()), body)
+                        flds = {"request_id": rid, "report": False, "community": peer.community.encode(),
+                                "version": 0 if peer.kind == "v1" else 1}
+                    new.append(Dg(data, "message", flds, ("exc", "SnmpDecodeError"), tag="echo"))
                 elif f == "truncate":
                     cut = rng.randrange(0, len(genuine.data))
                     new.append(Dg(genuine.data[:cut], "garbage", tag="truncate"))
@@ -300,6 +331,33 @@ def run(chk, model_ok=True):
                      "# client-level: " + c["mode"] + " " + c["peer"].label + " " + str(c["sched"]))
     finally:
         c18.build = orig_build
+    # a walk step whose reply never arrives is a timeout, not the end of the walk (sync iterator classes)
+    from gufo.snmp.sync_client.getbulk import GetBulkIter
+    from gufo.snmp.sync_client.getnext import GetNextIter
+    for cls in (GetNextIter, GetBulkIter):
+        peer_w = e2e.Peer("v2c")
+        conv_w = e2e.Conv(peer_w, env)
+        step = {"n": 0}
+
+        def script_w(op, req):
+            step["n"] += 1
+            if step["n"] == 2:
+                return []                                   # the reply to the second step is lost
+            name = tuple(req["varbinds"][0][0]) + (step["n"],)
+            return [peer_w.response(req, [ber.varbind(name, ber.INT(step["n"]))])]
+        shim_w = e2e.SockShim(conv_w, script_w)
+        itw = cls(shim_w, "1.3.6.1") if cls is GetNextIter else cls(shim_w, "1.3.6.1", 1)
+        got_w = []
+        rw = None
+        for _ in range(4):
+            rw = e2e.ncall(lambda: next(itw))
+            if rw[0] != "ok":
+                break
+            got_w.append(rw[1])
+        n_cli += 1
+        if rw is None or rw[:2] != ("exc", "TimeoutError"):
+            fail(f"sync {cls.__name__}: the reply to the second step was lost; the walk ended as {rw!r:.60} after {len(got_w)} rows "
+                 "instead of raising TimeoutError", f"# sync {cls.__name__} lost reply")
     nl, nd = sessions.model_compare(chk, all_sess, model_ok)
     chk.coverage.update({
         "evaluations": n_recv + n_cli, "client_level_cases": n_cli,
